@@ -33,10 +33,15 @@ type localCall struct {
 	resolved  int
 	done      bool
 	their     *theirQuestion
+	base      *localCall // pipelined on this call's answer
+	seq       int        // position among the calls pipelined on base
+	npiped    int
+	delivered int // highest seq+1 of the calls pipelined on this one that reached an application capability
 }
 
 type run struct {
 	s        *simrt.Sched
+	giveUp   *theirQuestion // set by the idle hook: the peer stops waiting for the Conn's answer to this reflected call
 	prop     string
 	opt      worker.Options
 	conn     *rpc.Conn
@@ -142,6 +147,12 @@ func (r *run) exportRefsChanged(e *connExport) {
 
 func (r *run) localCallArrived(q *theirQuestion) {
 	if lc := r.locals[q.token]; lc != nil {
+		if lc.their != nil && lc.their.fwd != nil {
+			// the peer reflected this call to an export of the Conn that is itself a proxy for a
+			// capability of the peer: the Conn passes it on again
+			r.s.Probe("reflected_call_bounced_back_to_peer")
+			return
+		}
 		if lc.their != nil {
 			r.s.Fail("call_sent_twice", "import.go:(*importClient).Send", fmt.Sprintf("local call %d was sent to the peer twice", q.token))
 			return
@@ -164,9 +175,12 @@ func (r *run) peerGotReturn(q *myQuestion) {
 		return
 	}
 	ac := r.appCalls[q.token]
-	if ac == nil {
+	{
 		// the target resolved to a capability hosted by the peer itself: the Conn forwarded the call to us
-		if tq := r.peer.theirByToken[q.token]; tq != nil {
+		// (and the peer may in turn have reflected it to an export of the Conn: the answer is still what
+		// the peer answered to the forwarded call).  For a reflected call only a later arrival counts: the
+		// export it was reflected to was itself a proxy for a capability of the peer.
+		if tq := r.peer.theirByToken[q.token]; tq != nil && tq != q.fwdFor {
 			{
 				s.Probe("call_forwarded_back_to_peer")
 				if q.finishSent {
@@ -207,6 +221,9 @@ func (r *run) peerGotReturn(q *myQuestion) {
 	case !ac.done:
 		r.mfail("return_wrong_content", "answer.go:(*answer).Return", fmt.Sprintf("call %d (token %d) was answered (%q / token %d) while its implementation is still running", q.id, q.token, q.retErr, q.retToken))
 	case ac.err != nil:
+		if q.retErr != "" && q.finishSent {
+			return // the peer finished (cancelled) the question: any exception is acceptable
+		}
 		if q.retErr == "" || (q.retErr != "canceled" && !strings.Contains(q.retErr, ac.err.Error())) {
 			r.mfail("return_wrong_content", "answer.go:(*answer).sendException", fmt.Sprintf("call %d (token %d): the implementation failed with %q but the Return says %q (token %d)", q.id, q.token, ac.err, q.retErr, q.retToken))
 		}
@@ -227,8 +244,19 @@ func (r *run) peerTask() {
 	p := r.peer
 	for !s.Failed() {
 		s.Block("peer", func() bool {
-			return len(r.toPeer) > 0 || r.peerHasMove() || r.peerDone || (r.settleReq && !r.settleDone)
+			return len(r.toPeer) > 0 || r.peerHasMove() || r.peerDone || (r.settleReq && !r.settleDone) || r.giveUp != nil
 		})
+		if tq := r.giveUp; tq != nil {
+			r.giveUp = nil
+			if fq := tq.fwd; fq != nil && !tq.returnSent && !fq.returned && !p.aborted {
+				if !fq.finishSent {
+					p.finish(fq, false)
+				}
+				fq.retErr = "gave up waiting for the Conn's answer"
+				p.relay(fq)
+			}
+			continue
+		}
 		if r.settleReq && !r.settleDone {
 			r.peerSettle()
 			r.settleDone = true
@@ -253,6 +281,9 @@ func (r *run) peerTask() {
 		}
 		if r.peerBudget > 0 && !r.closed {
 			moves = append(moves, "bootstrap", "call", "call", "call", "finish", "release")
+			if len(p.order) > 0 && p.moveDisembargoPossible() {
+				moves = append(moves, "disembargo", "disembargo", "disembargo", "disembargo")
+			}
 			if r.hostileBudget > 0 {
 				moves = append(moves, "hostile", "hostile")
 			}
@@ -290,6 +321,10 @@ func (r *run) peerTask() {
 			}
 		case "return":
 			p.moveReturn()
+		case "disembargo":
+			if p.moveDisembargo() {
+				r.peerBudget--
+			}
 		case "hostile":
 			r.hostileBudget--
 			r.peerBudget--
@@ -306,7 +341,7 @@ func (r *run) peerHasMove() bool {
 
 func (r *run) pendingTheirQ() bool {
 	for _, q := range r.peer.theirQ {
-		if !q.returnSent {
+		if !q.returnSent && q.fwd == nil {
 			return true
 		}
 	}
@@ -396,7 +431,11 @@ func (r *run) callerTask(id int, nops int) {
 				continue
 			}
 			base := cands[s.Choice("caller-base", len(cands))]
-			lc := &localCall{token: r.newToken(), via: "pipeline"}
+			lc := &localCall{token: r.newToken(), via: "pipeline", base: base, seq: base.npiped}
+			base.npiped++
+			if base.their != nil && base.their.returnSent {
+				s.Probe("local_pipelined_call_after_peer_returned")
+			}
 			lc.ctx, lc.cancel = context.WithCancel(ctx)
 			r.locals[lc.token] = lc
 			s.Logf("caller %d: PipelineSend token=%d on answer of %d", id, lc.token, base.token)
@@ -449,6 +488,17 @@ func (r *run) checkLocalResult(lc *localCall, st capnp.Struct, err error) {
 	s := r.s
 	q := lc.their
 	s.Logf("local call %d resolved err=%v", lc.token, err)
+	if ac := r.appCalls[lc.token]; q == nil && ac != nil {
+		// never sent to the peer: the answer it was pipelined on had resolved to a local capability
+		s.Probe("local_pipelined_call_served_locally")
+		switch {
+		case err == nil && (!ac.done || ac.err != nil || st.Uint64(0) != ac.retToken):
+			r.mfail("local_wrong_result", "rpc.go:(*Conn).handleReturn", fmt.Sprintf("local call %d was served by application capability %d (done=%v err=%v token %d) but resolved successfully with token %d", lc.token, ac.app, ac.done, ac.err, ac.retToken, st.Uint64(0)))
+		case err != nil && ac.done && ac.err == nil && !lc.cancelled && r.connOpen():
+			r.mfail("local_wrong_result", "rpc.go:(*Conn).handleReturn", fmt.Sprintf("local call %d was served successfully by application capability %d but resolved with error %v", lc.token, ac.app, err))
+		}
+		return
+	}
 	switch {
 	case err == nil:
 		if q == nil || !q.returnSent || q.retExc {
@@ -477,6 +527,22 @@ func (r *run) idleHook(s *simrt.Sched) bool {
 			ac.release = true
 			s.Fault("app_release")
 			return true
+		}
+	}
+	// Under injected faults (or a hostile history) the Conn may legitimately never answer a call the
+	// peer reflected to it (it keeps a placeholder answer until the caller cancels).  A peer that is
+	// otherwise stuck gives up on such a call: it finishes its question and answers the Conn's
+	// pipelined question with an exception - the environment assumption "the peer eventually
+	// answers" stays true by construction.
+	if r.peer != nil && (r.faultsPlanned > 0 || r.hostile) && r.connOpen() && !r.closed {
+		for _, tq := range r.peer.theirOrder {
+			if fq := tq.fwd; fq != nil && !tq.returnSent && !fq.returned {
+				if r.giveUp == nil && !r.peerDone {
+					s.Fault("peer_gives_up_reflected_call")
+					r.giveUp = tq // carried out by the peer task (library code must not run on the scheduler)
+					return true
+				}
+			}
 		}
 	}
 	return false
@@ -811,7 +877,7 @@ func (r *run) peerSettle() {
 				p.moveReturn()
 			}
 			s.Sleep(100 * time.Millisecond) // fake time: everything else runs until it blocks
-			if len(r.toPeer) == 0 && len(r.toConn) == 0 && !r.pendingTheirQ() {
+			if len(r.toPeer) == 0 && len(r.toConn) == 0 && !r.pendingTheirQ() && !p.forwardPending() {
 				return
 			}
 		}
